@@ -69,11 +69,13 @@ Fixpoint track_cap (tau : str) (m : tmode) (cap : nat) (n_targets : option nat)
   match g with
   | [] => inl d
   | t :: g' =>
-    match cap_allows tau cap st t with
-    | None => inr TEAttr
-    | Some false => track_cap tau m cap n_targets g' d st
-    | Some true =>
-      if relevant tau m t then
+    (* [InstanceCapMode.is_relevant_triple]: the wrapped strategy is asked first,
+       then [_check_class_counts] *)
+    if relevant tau m t then
+      match cap_allows tau cap st t with
+      | None => inr TEAttr
+      | Some false => track_cap tau m cap n_targets g' d st
+      | Some true =>
         match to t with
         | OL _ _ => inr TEAttr
         | ON o =>
@@ -88,8 +90,8 @@ Fixpoint track_cap (tau : str) (m : tmode) (cap : nat) (n_targets : option nat)
           | None => track_cap tau m cap n_targets g' d' st'
           end
         end
-      else track_cap tau m cap n_targets g' d st
-    end
+      end
+    else track_cap tau m cap n_targets g' d st
   end.
 
 (** [instances_cap <= 0] means no cap.  The early stop is used only when the
